@@ -160,6 +160,18 @@ def agreementFixed (ph0 ph1 : List Hap) : Option (List Nat) :=
   | none => none
   | some cb => some (if hamming a b < hamming a cb then agreeEq a b else agreeNe a b)
 
+/-- repaired once more (fixes/F45.patch): `hamming(phasing0[0], phasing1[0]) < hamming(phasing0[0], phasing1[1])` — the
+second haplotype itself instead of `complement` of the first, which raises `KeyError` on an allele ≥ 2 of a
+multi-allelic call and is the same string for heterozygous biallelic calls.  Never fails. -/
+def agreementSecond (ph0 ph1 : List Hap) : Option (List Nat) :=
+  let a := ph0.headD []
+  let b := ph1.headD []
+  some (if hamming a b < hamming a (ph1.getD 1 []) then agreeEq a b else agreeNe a b)
+
+/-- the agreement function selected by the flags: `fix45` (current proposal) over `fix3` (F3 repair) over as found -/
+def agreementOf (fix3 fix45 : Bool) (ph0 ph1 : List Hap) : Option (List Nat) :=
+  if fix45 then agreementSecond ph0 ph1 else if fix3 then agreementFixed ph0 ph1 else agreementFaithful ph0 ph1
+
 /-! ## `compare`: common variants, joint blocks, pairwise totals, multiway histogram -/
 
 /-- one call of the chosen sample as the reader sees it -/
@@ -185,6 +197,12 @@ def commonPositions (tables : List (List Call)) : List Nat :=
 
 def phasesOf (table : List Call) (common : List Nat) : List (Option (Nat × List Nat)) :=
   common.map fun p => (table.find? (·.pos == p)).bind phaseOf
+
+/-- fixes/F46.patch: in diploid mode the phase of a call with an allele index ≥ 2 is not assessed (the diploid formulas
+derive everything from the first haplotype, which determines the second only for alleles 0/1) -/
+def phasesOfP (fix46 : Bool) (ploidy : Nat) (table : List Call) (common : List Nat) : List (Option (Nat × List Nat)) :=
+  common.map fun p => (table.find? (·.pos == p)).bind fun c =>
+    if fix46 && ploidy == 2 && c.gt.any (fun a => decide (1 < a)) then none else phaseOf c
 
 def addToBlocks (key : List Nat) (vi : Nat) : List (List Nat × List Nat) → List (List Nat × List Nat)
   | [] => [(key, [vi])]
@@ -238,11 +256,11 @@ structure PairState where
   perBlock : List (List Nat × PhasingErrors × List Nat) := []
 
 /-- the loop of `compare_pair` over `block_intersection.values()`; `none` = an exception -/
-def pairLoop (fixA fixB fix3 : Bool) (ploidy : Nat) (ph0 ph1 : List (Option (Nat × List Nat))) (common : List Nat) :
+def pairLoop (fixA fixB fix3 fix45 : Bool) (ploidy : Nat) (ph0 ph1 : List (Option (Nat × List Nat))) (common : List Nat) :
     List (List Nat × List Nat) → PairState → Option PairState
   | [], st => some st
   | (_, block) :: rest, st =>
-    if block.length < 2 then pairLoop fixA fixB fix3 ploidy ph0 ph1 common rest st else
+    if block.length < 2 then pairLoop fixA fixB fix3 fix45 ploidy ph0 ph1 common rest st else
     let p0 := (List.range ploidy).map (hapOf ph0 block)
     let p1 := (List.range ploidy).map (hapOf ph1 block)
     let positions := block.map (fun i => common.getD i 0)
@@ -250,30 +268,30 @@ def pairLoop (fixA fixB fix3 : Bool) (ploidy : Nat) (ph0 ph1 : List (Option (Nat
     | none => none
     | some e =>
       let bed := if ploidy = 2 then st.bed ++ bedRecords (p0.headD []) (p1.headD []) positions else st.bed
-      let agrAny := if ploidy = 2 then ((if fix3 then agreementFixed p0 p1 else agreementFaithful p0 p1).getD []) else []
+      let agrAny := if ploidy = 2 then ((agreementOf fix3 fix45 p0 p1).getD []) else []
       let st1 : PairState := { st with bed := bed, total := addErrors st.total e, pairs := st.pairs + (block.length - 1),
                                        perBlock := st.perBlock ++ [(positions, e, agrAny)] }
       if st.longest < block.length then
         if ploidy = 2 then
-          match (if fix3 then agreementFixed p0 p1 else agreementFaithful p0 p1) with
+          match (agreementOf fix3 fix45 p0 p1) with
           | none => none
           | some agr =>
-            pairLoop fixA fixB fix3 ploidy ph0 ph1 common rest
+            pairLoop fixA fixB fix3 fix45 ploidy ph0 ph1 common rest
               { st1 with longest := block.length, longestErr := e, longestPos := positions, longestAgr := agr }
         else
-          pairLoop fixA fixB fix3 ploidy ph0 ph1 common rest
+          pairLoop fixA fixB fix3 fix45 ploidy ph0 ph1 common rest
             { st1 with longest := block.length, longestErr := e, longestPos := positions }
-      else pairLoop fixA fixB fix3 ploidy ph0 ph1 common rest st1
+      else pairLoop fixA fixB fix3 fix45 ploidy ph0 ph1 common rest st1
 
 /-- `compare([t0, t1], …)` with `ploidy`: everything `--tsv-pairwise`, `--switch-error-bed` and
 `--longest-block-tsv` are computed from.  `none` = the command dies with an exception. -/
-def comparePair (fixA fixB fix3 : Bool) (ploidy : Nat) (t0 t1 : List Call) : Option PairResult :=
+def comparePair (fixA fixB fix3 fix45 fix46 : Bool) (ploidy : Nat) (t0 t1 : List Call) : Option PairResult :=
   let common := commonPositions [t0, t1]
-  let ph0 := phasesOf t0 common
-  let ph1 := phasesOf t1 common
+  let ph0 := phasesOfP fix46 ploidy t0 common
+  let ph1 := phasesOfP fix46 ploidy t1 common
   let blocks := jointBlocks [ph0, ph1] common.length
   let big := blocks.filter (fun b => decide (2 ≤ b.2.length))
-  match pairLoop fixA fixB fix3 ploidy ph0 ph1 common blocks {} with
+  match pairLoop fixA fixB fix3 fix45 ploidy ph0 ph1 common blocks {} with
   | none => none
   | some st =>
     some { intersectionBlocks := big.length
@@ -308,9 +326,9 @@ def multiwayKeys (encs : List Hap) (m : Nat) : List Hap :=
 
 /-- `compare_multiway`: (total compared pairs, histogram sorted by key); `none` = the `assert` on the first
 (smallest) bipartition fails because it is not the all-agree one (finding FC11c; `fixC` = assert removed) -/
-def compareMultiway (fixC : Bool) (tables : List (List Call)) : Option (Nat × List (Hap × Nat)) :=
+def compareMultiway (fixC fix46 : Bool) (tables : List (List Call)) : Option (Nat × List (Hap × Nat)) :=
   let common := commonPositions tables
-  let phases := tables.map (phasesOf · common)
+  let phases := tables.map (phasesOfP fix46 2 · common)
   let blocks := (jointBlocks phases common.length).filter (fun b => decide (2 ≤ b.2.length))
   let total := (blocks.map (fun b => b.2.length - 1)).sum
   let keys := blocks.flatMap fun b =>
